@@ -1,6 +1,96 @@
-(** Entry points for C08 (stub: replaced by the property's own entry file). *)
-From Coq Require Import ZArith List.
-From GV Require Import Base.Val.
+(** Entry points for C08 (query rows: one per input, in order, correctly labelled, context-free).
+
+    wire formats   str      : list of code points
+                   opt x    : () | (x)
+                   qres     : (0 payload) | (1 code), code = position of the error in [qerr]
+                   row      : (label file? ((q r) ...))   -- the instantiation used on the wire:
+                              a signature is an integer handle, the references are 0..nrefs-1, a
+                              "distance" is the pair (query handle, reference), the content of a
+                              result item is the list of its distances.  A row thus shows which
+                              query signature was compared with which references for which input. *)
+From Coq Require Import ZArith List Bool.
+From GV Require Import Base.Val Model.C08.
+Import ListNotations.
 Open Scope Z_scope.
 
-Definition dispatch (op : Z) (a : val) : val := vbad.
+Definition vstr (s : str) : val := VL (map VI s).
+Definition to_str (v : val) : str := to_Zs v.
+Definition to_strs (v : val) : list str := map to_str (to_list v).
+
+Definition qerr_code (e : qerr) : Z :=
+  match e with
+  | NoQueries => 1 | InputsMismatch => 2 | ZipStrict => 3 | BadChunkSize => 4 | ShapeMismatch => 5
+  | IndexErr => 6 | Uninit => 7 | OutOfFuel => 8 | UsageExclusive => 9 | UsageRequired => 10 | NoFiles => 11
+  end.
+
+Definition vqres {A} (f : A -> val) (r : qres A) : val :=
+  match r with QOk a => vok (f a) | QErr e => verr (qerr_code e) end.
+
+Definition wdist (q r : Z) : Z * Z := (q, r).
+Definition wcontent (ds : list (Z * Z)) : list (Z * Z) := ds.
+
+Fixpoint lookup (t : list (str * Z)) (p : str) : Z :=
+  match t with
+  | [] => -1
+  | (k, h) :: r => if str_eqb k p then h else lookup r p
+  end.
+
+Definition to_table (v : val) : list (str * Z) :=
+  map (fun e => match e with VL [k; VI h] => (to_str k, h) | _ => ([], -1) end) (to_list v).
+
+Definition vrow (r : query_input * list (Z * Z)) : val :=
+  VL [vstr (qi_label (fst r)); vopt vstr (qi_file (fst r)); vlist (vpair VI VI) (snd r)].
+
+Definition to_sigfile (v : val) : option (list str * list Z) :=
+  match v with
+  | VL [VL [ids; hs]] => Some (to_strs ids, to_Zs hs)
+  | _ => None
+  end.
+
+Definition dispatch (op : Z) (a : val) : val :=
+  match op with
+  (* 1: strip_seq_file_ext s *)
+  | 1 => vstr (strip_seq_file_ext (to_str a))
+  (* 2: get_file_id (path strip_dir strip_ext) *)
+  | 2 => match a with
+         | VL [p; sd; se] => vstr (get_file_id (to_str p) (to_bool sd) (to_bool se))
+         | _ => vbad
+         end
+  (* 3: str(Path(p)) *)
+  | 3 => vstr (path_str (to_str a))
+  (* 4: str(Path(a) / b) *)
+  | 4 => match a with
+         | VL [x; y] => vstr (path_str (posix_join (to_str x) (to_str y)))
+         | _ => vbad
+         end
+  (* 5: read_lines text *)
+  | 5 => vlist vstr (read_lines (to_str a))
+  (* 6: get_sequence_files (explicit listfile? ldir strip_dir strip_ext) *)
+  | 6 => match a with
+         | VL [ex; lf; ld; sd; se] =>
+             vopt (vpair (vlist vstr) (vlist vstr))
+                  (get_sequence_files (to_strs ex) (to_opt to_str lf) (to_str ld) (to_bool sd) (to_bool se))
+         | _ => vbad
+         end
+  (* 7: query_cmd (chunksize? files_arg listfile? ldir sigfile? table nrefs) *)
+  | 7 => match a with
+         | VL [cs; fa; lf; ld; sf; tb; VI nrefs] =>
+             let refs := map Z.of_nat (seq 0 (Z.to_nat nrefs)) in
+             vqres (vlist vrow)
+                   (query_cmd Z Z (Z * Z) (list (Z * Z)) wdist wcontent refs (lookup (to_table tb))
+                              (to_opt to_Z cs) (to_strs fa) (to_opt to_str lf) (to_str ld) (to_sigfile sf))
+         | _ => vbad
+         end
+  (* 8: the code points among the given ones that str.strip() removes *)
+  | 8 => VL (map VI (filter is_space (to_Zs a)))
+  (* 9: query (chunksize? queries nrefs) with inputs 0..n-1: rows ((i) ((q r) ...)) *)
+  | 9 => match a with
+         | VL [cs; qs; VI nrefs; VI ninputs] =>
+             let refs := map Z.of_nat (seq 0 (Z.to_nat nrefs)) in
+             vqres (vlist (vpair VI (vlist (vpair VI VI))))
+                   (query Z Z (Z * Z) (list (Z * Z)) wdist wcontent refs (to_opt to_Z cs) (to_Zs qs)
+                          (map Z.of_nat (seq 0 (Z.to_nat ninputs))))
+         | _ => vbad
+         end
+  | _ => vbad
+  end.
